@@ -177,11 +177,15 @@ def map_apply(ctx, w, h, sentinel=False, npix=None):
     scale = ctx.int('scale', 0, 4)
     track = ctx.bool('is_tracking_position')
     locked = ctx.bool('is_locked')
-    pkt = MapPacket(map_id=map_id, scale=scale, icons=[], width=w, height=h,
-                    offset=(ox, oz), pixels=pix,
+    icon = MapPacket.MapIcon(type=ctx.int('icon_type', 0, 15),
+                             direction=ctx.int('icon_dir', 0, 15),
+                             location=(1, 2))
+    pkt = MapPacket(map_id=map_id, scale=scale, icons=[icon], width=w,
+                    height=h, offset=(ox, oz), pixels=pix,
                     is_tracking_position=track, is_locked=locked)
     existing = MapPacket.Map(7)
-    mset = MapPacket.MapSet(existing)
+    bystander = MapPacket.Map(99)       # never addressed by a packet
+    mset = MapPacket.MapSet(existing, bystander)
     if ctx.mode == 'sym':
         existing.pixels = WriteLog(MW * MW)
         real_init = MapPacket.Map.__init__
@@ -203,6 +207,13 @@ def map_apply(ctx, w, h, sentinel=False, npix=None):
         MapPacket.Map = LoggedMap
     try:
         pkt.apply_to_map_set(mset)
+        # a second packet for ANOTHER map (created on demand), no icons: it
+        # must not disturb the first map
+        other_id = 1234
+        pkt2 = MapPacket(map_id=other_id, scale=scale, icons=[], width=0,
+                         height=0, offset=None, pixels=None,
+                         is_tracking_position=track, is_locked=locked)
+        pkt2.apply_to_map_set(mset)
     finally:
         MapPacket.Map = orig_Map
     m = mset.maps_by_id.get(map_id)
@@ -241,7 +252,12 @@ def map_apply(ctx, w, h, sentinel=False, npix=None):
     return z3.And(got == exp, beq(m.id, map_id), beq(m.scale, scale),
                   EB(m.is_tracking_position) == EB(track),
                   EB(m.is_locked) == EB(locked),
-                  z3.BoolVal(m.icons == []), others_untouched,
+                  z3.BoolVal(len(m.icons) == 1 and m.icons[0] is icon),
+                  z3.BoolVal(bystander.icons == [] and
+                             mset.maps_by_id[99] is bystander and
+                             mset.maps_by_id[other_id].icons == [] and
+                             mset.maps_by_id[other_id].icons is not m.icons),
+                  others_untouched,
                   z3.BoolVal(len(m.pixels) == MW * MW))
 
 
@@ -350,6 +366,12 @@ def records(ctx, sentinel=False):
     base = PLI.Action(uuid=u)
     sub = PLI.RemovePlayerAction(uuid=u)
     sub2 = PLI.UpdateLatencyAction(uuid=u, ping=A[0])
+    sub3 = PLI.UpdateLatencyAction(uuid=u, ping=A[1])
+    e3 = sub2 == sub3
+    conds.append(z3.BoolVal(bool(e3)) == (E(A[0]) == E(A[1])))
+    conds.append(z3.BoolVal(len(list(sub2)) == 2 and 'ping' in repr(sub2)))
+    if e3:
+        conds.append(z3.BoolVal(hash(sub2) == hash(sub3)))
     for x, y in ((base, sub), (sub, base), (base, sub2), (sub2, base)):
         e2 = x == y
         conds.append(z3.BoolVal(not bool(e2) and bool(x != y)))
